@@ -905,10 +905,23 @@ def compare(ctx, checks, outs):
                     else:
                         ctx.disagree('coords.rses', c, imp, m, 'finite / non-finite result differs')
                 continue
+            # (i) separation from the source and (ii) declination: tight, independent of the source declination;
+            # (iii) full direction: the longitude change about a source next to a pole is computed by arctan2 of two
+            # numbers of size cos(src_dec) cos(dec_out) with absolute errors of an ulp (xcos_A = cos_a - cos_b cos_c
+            # cancels; regular branch only), i.e. the azimuth about the source - and only it - carries eps / cos(src_dec)
+            # (found by the thorough tier: cos(src_dec) = 1e-5 -> 3.9e-12 rad = 0.2 eps / cos(src_dec))
+            cond = rses_cond(c, m[1])
+            big = 16 * EPS * sum(abs(c[k]) for k in keys)
+            cs = math.cos(c['src_dec'])
+            amp = 1.0 / cs if cs >= 1e-12 else 1.0
             d = vincenty(imp[0], imp[1], m[0], m[1])
-            tol = 32 * EPS * rses_cond(c, m[1]) + 16 * EPS * sum(abs(c[k]) for k in keys)
-            if d > tol:
-                ctx.disagree('coords.rses', c, imp, m, f'directions differ by {d:.3g} > {tol:.3g}')
+            dsep = abs(vincenty(imp[0], imp[1], c['src_ra'], c['src_dec']) - vincenty(m[0], m[1], c['src_ra'], c['src_dec']))
+            if dsep > 64 * EPS * cond + big:
+                ctx.disagree('coords.rses', c, imp, m, f'separations from the source differ by {dsep:.3g}')
+            elif abs(imp[1] - m[1]) > 32 * EPS * cond + big:
+                ctx.disagree('coords.rses', c, imp, m, f'declinations differ by {abs(imp[1] - m[1]):.3g}')
+            elif d > 32 * EPS * cond + big + 8 * EPS * amp:
+                ctx.disagree('coords.rses', c, imp, m, f'directions differ by {d:.3g}')
         elif f == 'a2r':
             m1 = parse(next(it))
             m2 = parse(next(it))
